@@ -266,7 +266,8 @@ func c18setFlags(privacy, re bool) {
 	if re {
 		fl |= slog.Lprivacypathregexp
 	}
-	slog.SetFlags(fl)
+	caseSeq++
+	setFlagsVia(fl, caseSeq)
 }
 
 // c18build replays the table history on fresh globals and returns the model.
